@@ -284,6 +284,31 @@ func runHostileMode() {
 			if r.Bool() && len(in) >= 4 {
 				copy(in, "STEF")
 			}
+		case x == 11:
+			kind = "huge-varint-in-varheader"
+			// one byte of the (uncompressed) variable header - schema descriptor lengths, the user
+			// data count, a key or value length - replaced by a 10-byte varint with bit 63 set (or
+			// all ones): a value no writer produces and that turns negative in a careless int
+			// conversion. The frame's size field is adjusted, so everything else stays well formed.
+			for tries := 0; b.ps.zstd && tries < 50; tries++ {
+				b = bases[r.Intn(len(bases))]
+			}
+			f := b.ps.frames[0]
+			if b.ps.zstd || len(f.content) == 0 {
+				kind = "huge-varint-in-varheader-skipped"
+				break
+			}
+			k := r.Intn(len(f.content))
+			huge := []uint64{1 << 63, 1<<63 + 3, ^uint64(0), 1<<63 + uint64(f.content[k]), 1 << 62}[r.Intn(5)]
+			var nc []byte
+			nc = append(nc, f.content[:k]...)
+			nc = binary.AppendUvarint(nc, huge)
+			nc = append(nc, f.content[k+1:]...)
+			in = append([]byte(nil), b.stream[:f.start]...)
+			in = append(in, f.flags)
+			in = binary.AppendUvarint(in, uint64(len(nc)))
+			in = append(in, nc...)
+			in = append(in, b.stream[f.end:]...)
 		default:
 			kind = "header-garbage"
 			// valid fixed header followed by garbage frames
